@@ -19,7 +19,7 @@ META = {
         "quick": "constructor: every defined identity + 14 undefined/reserved numbers + 4076 with free sub-type, payload lengths 0..24, all bits symbolic, "
                  "each counter explored for values 0,1,2 and one solver-chosen larger value, <= 600 paths per (identity,length); parse(): buffers 0..16 bytes, "
                  "validate a free integer, 8 representative message numbers; reader: all streams of length 0..8 in modes 0/1/2, <=1 injected fault at <=5",
-        "thorough": "payload lengths 0..48 (MSM types 0..36), buffers 0..32, streams 0..10, <=2 faults at <=7"},
+        "thorough": "payload lengths 0..48 (MSM types 0..36; mask shapes above 10 cells 0..28), buffers 0..32, streams 0..10, <=2 faults at <=7"},
     "outside": "payloads longer than the bound for arbitrary bytes (structure-aware long inputs are covered by C03/C06 directed runs); counters above the explored values",
     "assumptions": ["stream double contract: read(n) returns at most n bytes; empty result only at end of data or injected fault"],
 }
@@ -150,7 +150,9 @@ def run_job(spec):
                             if i:
                                 eng.assume(z3.ULT(A[i - 1], a_))
                         eng.assume(msgdrv.fterm(P, 8 * L, off, w) == msgdrv.onehot_mask(w, A))
-                ctor_lengths(lambda: sym.Engine(max_paths=150, conc_limit=4, conc_small=3), range(hdr, maxl + 1), assume_kg, res,
+                # shapes with many cells: a free cell mask of 36+ bits makes the cell count a hard enumeration; they stop at 28 bytes
+                top = maxl if k * g <= 10 else min(maxl, 28)
+                ctor_lengths(lambda: sym.Engine(max_paths=150, conc_limit=4, conc_small=3), range(hdr, top + 1), assume_kg, res,
                              f"{ident}[{k}x{g}]")
         else:
             ctor_lengths(lambda: sym.Engine(max_paths=150, conc_limit=4, conc_small=3), range(minl, maxl + 1), assume_fn, res, ident)
